@@ -1,5 +1,150 @@
-"""C11 - Raw pixel load/store and iteration round-trip in both data orders  (metadata; generators live here and/or in props/C11_*.py parts)"""
-CLAIMED = False   # set True by the owner once ./check C11 passes with real theorems
+"""C11 - Raw pixel load/store and iteration round-trip in both data orders."""
+from common import *
+
+CLAIMED = True
 LEVEL = 'proof'
-LEVEL_TEXT = 'TODO'
-LEVEL_NOTE = 'TODO'
+LEVEL_TEXT = ('Proof: 19 Coq theorems (coq/Properties/C11.v) over the Gallina model of RawData::load/store for RawU1..RawU32 in both '
+              'data orders and of RawDataIterator (coq/Model/Rawdata.v: bit_position, shift/mask expressions as written with u8 truncation, '
+              'from/to_le/be_bytes, index.checked_mul(N), saturating nth, size_hint): store-then-load returns the value; every other '
+              'pixel index loads the same value and every bit outside pixel i keeps its value (bit-level frame, with disjointness and '
+              'coverage of the per-pixel bit sets); an index at or beyond the pixel count - ANY usize, also one whose byte offset leaves '
+              'usize - gives None / Err and an unchanged buffer; load equals the documented layout as a closed form over the bytes '
+              '(MSB-first / LSB-first sub-byte pixels, little / big endian bytes); the iterator yields exactly load(0), load(1), ...; '
+              'nth(n) returns item n of the remainder and continues behind it (also when index+n saturates); size_hint equals the number '
+              'of remaining items; any mix of next()/nth(k) behaves like the same calls on the item list. The single-byte facts are '
+              'decided by vm_compute over the whole finite domain (3 widths x 2 orders x positions x 256 bytes x all values) and lifted to '
+              'buffers by list lemmas. The model is tied to the code by running the extracted model and the real functions on the same inputs.')
+LEVEL_NOTE = ('Trusted: Coq kernel, extraction (ExtrOcamlBasic), the OCaml/Rust drivers; the hand-written model is validated by differential '
+              'testing on every run, not proved equal to the Rust source. usize is 64 bit (the harness target).')
+RULE = ('correspondence: load, store (result, all bytes afterwards, load after store), the collected iterator with its initial size_hint, and '
+        'random mixes of next()/nth(k) with size_hint after every call, for 7 raw widths x 2 data orders x every buffer length 0..=L (L=6 quick, 10 '
+        'thorough) x 4 background byte patterns x every index 0..=pixels+1 plus indices on both sides of usize::MAX / bytes_per_pixel; '
+        'plus random buffers up to 40 bytes. Non-trivial = the model result is not none/empty. '
+        'search (implementation only, against an independent bit-by-bit reference of the documented layout): p_rd_store = for every value '
+        '(exhaustive up to 8 bpp, up to 16 bpp on selected cases, boundary+random above) store at every index, compare all bytes with the reference, '
+        'load back, and re-load every pixel index; p_rd_iter = item list vs load vs reference, size_hint at every position, huge nth skips at '
+        'every small position, random next/nth mixes; p_rd_far = load/store/nth at indices far beyond the buffer incl. offset-overflowing ones.')
+EXHAUSTIVE = {'quick': False, 'thorough': False}
+TRUSTED = ['modelled, not verified: u8 shifts/masks as Z.shiftl/Z.shiftr/Z.land/Z.lor with explicit 8-bit truncation; slice::get / get_mut / '
+           'copy_from_slice as list operations; Option/Result combinators (map, and_then, ok_or, inspect) by their meaning']
+ASSUMPTIONS = ['buffer elements are bytes (bytes_ok) and 8 * len <= usize::MAX (len_ok: every slice below 2 EiB), so the unbounded `index + 1` of '
+               'next() and `len * (8 / bpp)` of size_hint coincide with usize arithmetic; stored values are < 2^bits (always true for RawUx values); '
+               'the out-of-range theorems need no assumption']
+PARTIAL = []
+# Mutations tried against the suites (scratch worktree of /repo, EG_REPO=...): all reported VIOLATION with a failing input:
+#   bit_position: clamp of the in-byte position; data-order condition inverted
+#   sub-byte store without clearing the old bits (`*byte | v << k`)
+#   RawU16 load: from_be/from_le swapped;  RawU24 big-endian store takes bytes[0..3] instead of bytes[1..4]
+#   RawU24 store with stride 4 (checked_mul(4));  RawU32 load with wrapping_mul instead of checked_mul
+#   RawU8 store with a clamped index (writes the last byte instead of Err)
+#   iterator: nth with wrapping_add (first only seen by correspondence -> p_rd_iter got the huge-skip section), size_hint branches
+#   swapped (= original defect b), size_hint ignoring the index
+# Not distinguishable by any observation (benign): `>= 8` -> `> 8` in size_hint (8 bpp gives len either way).
+
+BPPS = [1, 2, 4, 8, 16, 24, 32]
+USIZE_MAX = 2 ** 64 - 1
+
+
+def total(bpp, n):
+    return n * 8 // bpp
+
+
+def backgrounds(rng, n):
+    """several background byte patterns of length n"""
+    yield [0] * n
+    yield [255] * n
+    yield [(0xAA if i % 2 == 0 else 0x55) for i in range(n)]
+    yield [rng.randrange(256) for _ in range(n)]
+
+
+def some_values(rng, bpp, k):
+    m = 2 ** bpp - 1
+    vs = [0, m, 1, m >> 1, (m >> 1) + 1, 0x1234 & m, 0x123456 & m, 0x12345678 & m]
+    out = [rng.choice(vs) for _ in range(k)]
+    out.append(rng.randrange(m + 1))
+    # from_u32 masks: now and then hand over an unmasked u32
+    if rng.random() < 0.2:
+        out.append(rng.randrange(2 ** 32))
+    return out
+
+
+def far_indices(bpp):
+    n = max(1, bpp // 8)
+    # far beyond the buffer, on both sides of the checked_mul boundary (index * bytes_per_pixel = usize::MAX)
+    return [i for i in [USIZE_MAX // n, USIZE_MAX // n - 1, USIZE_MAX // n + 1, 2 ** 63 // n, 2 ** 32, 2 ** 32 + 1] + OVERFLOWING
+            if i <= USIZE_MAX]
+
+
+# indices whose product with 2, 3 or 4 bytes per pixel leaves usize: `index.checked_mul(N)` must reject them
+# (before repair b0f500f the product wrapped: load(buf, 2^63) returned pixel 0)
+OVERFLOWING = [USIZE_MAX, 2 ** 63, 2 ** 63 + 1, 2 ** 62 + 1, USIZE_MAX // 3 + 2]
+
+
+def ops(rng, bpp, tot, k):
+    """a mix of next (N) and nth (T<k>); huge skips: saturating add and checked_mul on both sides of their limits"""
+    out = []
+    nb = max(1, bpp // 8)
+    huge_left = 99
+    for _ in range(k):
+        r = rng.random()
+        if r < 0.35:
+            out.append('N')
+        elif r < 0.5:
+            out.append('T0')
+        elif r < 0.6:
+            out.append('T%d' % tot)
+        elif r < 0.64 and huge_left:
+            huge_left -= 1
+            out.append('T%d' % rng.choice([USIZE_MAX // nb - 4096, 2 ** 63 // nb - 4096, 2 ** 40,
+                                           USIZE_MAX, USIZE_MAX - 1, 2 ** 63, min(USIZE_MAX, USIZE_MAX // nb + 1), 2 ** 63 // nb]))
+        else:
+            out.append('T%d' % rng.randrange(0, tot // 3 + 2))
+    return out
+
+
+def cases(tier, rng):
+    L = 6 if tier == 'quick' else 10
+    reps = 1 if tier == 'quick' else 3
+    for bpp in BPPS:
+        for alt in (0, 1):
+            for n in range(0, L + 1):
+                tot = total(bpp, n)
+                for bg in backgrounds(rng, n):
+                    yield J('rd_iter', bpp, alt, *bg)
+                    for idx in list(range(0, tot + 2)) + [rng.choice(far_indices(bpp))]:
+                        yield J('rd_load', bpp, alt, idx, *bg)
+                        for v in some_values(rng, bpp, reps):
+                            yield J('rd_store', bpp, alt, idx, v, *bg)
+                    for _ in range(2 * reps):
+                        yield J('rd_ops', bpp, alt, n, *bg, *ops(rng, bpp, tot, rng.randrange(1, 9)))
+    # longer random buffers
+    for _ in range(300 if tier == 'quick' else 3000):
+        bpp, alt, n = rng.choice(BPPS), rng.randrange(2), rng.randrange(0, 40)
+        bg = [rng.randrange(256) for _ in range(n)]
+        tot = total(bpp, n)
+        yield J('rd_iter', bpp, alt, *bg)
+        yield J('rd_ops', bpp, alt, n, *bg, *ops(rng, bpp, tot, rng.randrange(1, 16)))
+        idx = rng.randrange(0, tot + 3)
+        yield J('rd_store', bpp, alt, idx, rng.randrange(2 ** bpp), *bg)
+
+
+def search(tier, rng):
+    L = 5 if tier == 'quick' else 9
+    for bpp in BPPS:
+        for alt in (0, 1):
+            for n in range(0, L + 1):
+                tot = total(bpp, n)
+                for k, bg in enumerate(backgrounds(rng, n)):
+                    yield J('p_rd_iter', bpp, alt, rng.randrange(2 ** 32), 12, *bg)
+                    if k == 3:
+                        for idx in far_indices(bpp):
+                            yield J('p_rd_far', bpp, alt, idx, *bg)
+                    for idx in list(range(0, tot + 2)) + far_indices(bpp)[:2]:
+                        # exhaustive in the value up to 8 bpp always; up to 16 bpp for one background (all in thorough)
+                        mode = 1 if (bpp == 16 and (tier != 'quick' or (k == 3 and n <= 3))) or (bpp > 16 and tier != 'quick' and k == 3) else 0
+                        yield J('p_rd_store', bpp, alt, idx, mode, rng.randrange(2 ** 32), *bg)
+    for _ in range(200 if tier == 'quick' else 3000):
+        bpp, alt, n = rng.choice(BPPS), rng.randrange(2), rng.randrange(0, 48)
+        bg = [rng.randrange(256) for _ in range(n)]
+        yield J('p_rd_iter', bpp, alt, rng.randrange(2 ** 32), 24, *bg)
+        yield J('p_rd_store', bpp, alt, rng.randrange(0, total(bpp, n) + 3), 0, rng.randrange(2 ** 32), *bg)
